@@ -512,8 +512,35 @@ def ZL(xs) -> str:
     return ",".join(str(i) for i in xs) if xs else "~"
 
 
-def hv(v) -> str:          # Headers value: str or int
-    return "s" + S(v) if isinstance(v, str) else "i" + str(v)
+class Lazy:
+    """a value that is not a str but has a string form (lazy translation strings, exception instances, ...):
+    Headers stores str(value), after the same newline check"""
+
+    def __init__(self, text):
+        self.text = text
+
+    def __str__(self):
+        return self.text
+
+    def __repr__(self):
+        return f"Lazy({self.text!r})"
+
+    def __eq__(self, other):
+        return isinstance(other, Lazy) and other.text == self.text
+
+    def __hash__(self):
+        return hash(("Lazy", self.text))
+
+
+MULTI = (list, tuple, set)     # the value kinds a plain mapping may hold for several values of one key
+
+
+def hv(v) -> str:          # Headers value: a str, an int, or any other object (the model sees its str() form)
+    if isinstance(v, str):
+        return "s" + S(v)
+    if isinstance(v, int) and not isinstance(v, bool):
+        return "i" + str(v)
+    return "s" + S(str(v))
 
 
 def hvl(vs, sep="/") -> str:
@@ -526,11 +553,11 @@ def kvs(pairs, f) -> str:
 
 
 def hmv(v) -> str:
-    return "l" + hvl(list(v), "+") if isinstance(v, (list, tuple)) else "v" + hv(v)
+    return "l" + hvl(list(v), "+") if isinstance(v, MULTI) else "v" + hv(v)
 
 
 def mv(v) -> str:
-    return "l" + L(v, "+") if isinstance(v, (list, tuple)) else "v" + S(v)
+    return "l" + L(list(v), "+") if isinstance(v, MULTI) else "v" + S(v)
 
 
 def klists(d) -> str:      # MultiDict state as dict key -> list
@@ -990,7 +1017,7 @@ def _flat(arg):
     if kind in ("p", "h"):
         return list(val)
     if kind == "d":
-        return [(k, x) for k, v in val.items() for x in (v if isinstance(v, (list, tuple)) else [v])]
+        return [(k, x) for k, v in val.items() for x in (v if isinstance(v, MULTI) else [v])]
     return [(k, x) for k, vs in (val.items() if isinstance(val, dict) else val) for x in vs]
 
 
@@ -1039,7 +1066,7 @@ def ref_hd(b: list, op):
                     _ref_set(a, k, _sv(v))
             elif kind == "d":
                 for k, v in val.items():
-                    if isinstance(v, (list, tuple)):
+                    if isinstance(v, MULTI):
                         _ref_setlist(a, k, v)
                     else:
                         _ref_set(a, k, _sv(v))
@@ -1197,7 +1224,8 @@ HD_INITS = [None, ("p", (("a", "1"), ("A", 2), ("b", "1"))), ("d", {"a": "1", "b
             ("m", {"a": ["1", "2"], "B": ["1"]}), ("h", (("b", "2"), ("a", "1"), ("B", "1"))),
             ("p", (("a", "1"), ("b", "2"), ("a", "2"), ("c", "3")))]
 HD_ARGS = [("p", (("a", "1"), ("A", 2))), ("d", {"A": 2, "b": ["1", "2"]}), ("d", {"a": []}),
-           ("m", {"a": ["2"], "A": []}), ("h", (("b", "1"), ("B", "2"), ("a", "1"))), ("p", (("b", "1"), ("a", BAD)))]
+           ("m", {"a": ["2"], "A": []}), ("h", (("b", "1"), ("B", "2"), ("a", "1"))), ("p", (("b", "1"), ("a", BAD))),
+           ("d", {"a": ("1", 2), "b": {"3"}, "c": "4"}), ("d", {"b": (), "a": Lazy("lazy")}), ("p", (("a", Lazy(BAD)), ("b", b"by\ntes")))]
 
 
 def hd_alphabet(full: bool):
@@ -1206,7 +1234,7 @@ def hd_alphabet(full: bool):
         for k in ("a", "B"):
             ops += [("add", k, "1"), ("set", k, 2), ("setlist", k, ("1", 2)), ("setdefault", k, "1"), ("delkey", k), ("popkey", k),
                     ("setlistdefault", k, ("2",))]
-        ops += [("set", "a", BAD), ("setlist", "a", ()), ("update", HD_ARGS[1]), ("extend", HD_ARGS[1]), ("delidx", 0),
+        ops += [("set", "a", BAD), ("setlist", "a", ()), ("update", HD_ARGS[1]), ("extend", HD_ARGS[6]), ("delidx", 0),
                 ("setslice", 1, None, (("a", "1"), ("B", 2))), ("pop",), ("clear",)]
         return ops
     ks = HD_KEYS
@@ -1223,7 +1251,7 @@ def hd_alphabet(full: bool):
         ops += [("delkey", k), ("popkey", k), ("remove", k), ("popkeyd", k, "d")]
     for a in HD_ARGS:
         ops += [("extend", a), ("update", a)]
-    ops += [("ior", HD_ARGS[1]), ("ior", HD_ARGS[0])]
+    ops += [("ior", HD_ARGS[1]), ("ior", HD_ARGS[0]), ("ior", HD_ARGS[6])]
     for i in [0, -1, 3]:
         ops += [("delidx", i), ("popidx", i)]
         for v in ["1", BAD]:
@@ -1238,7 +1266,7 @@ def hd_alphabet(full: bool):
 
 def hd_random_op(rng):
     keys = HD_KEYS + ["B", "Content-Type", "content-type", "X-Foo"]
-    vals = ["1", 2, "text/plain", "", BAD, "a\rb", -5, "é"]
+    vals = ["1", 2, "text/plain", "", BAD, "a\rb", -5, "é", Lazy("lazy"), Lazy(BAD), b"by\ntes"]
 
     def k():
         return rng.choice(keys)
@@ -1254,7 +1282,7 @@ def hd_random_op(rng):
         if t == "p":
             return ("p", tuple((k(), v()) for _ in range(rng.randint(0, 3))))
         if t == "d":
-            return ("d", {k(): (list(vl()) if rng.random() < 0.5 else v()) for _ in range(rng.randint(0, 3))})
+            return ("d", {k(): (rng.choice([list, tuple, set])(vl()) if rng.random() < 0.5 else v()) for _ in range(rng.randint(0, 3))})
         if t == "m":
             return ("m", {k(): [str(x) for x in vl() if isinstance(x, str) and "\n" not in x and "\r" not in x]
                           for _ in range(rng.randint(0, 3))})
@@ -1289,7 +1317,7 @@ MD_VALS = ["1", "2"]
 MD_INITS = [None, ("p", (("a", "1"), ("b", "2"), ("a", "2"))), ("d", {"a": "1", "A": "2"}),
             ("d", {"a": ["1", "2"], "b": [], "A": ("2",)}), ("m", {"b": ["2", "1"], "a": ["1"]}), ("m", {"a": [], "b": ["1"]})]
 MD_ARGS = [("p", (("a", "1"), ("a", "2"), ("b", "1"))), ("d", {"a": "2", "b": ["1", "2"]}), ("d", {"b": []}),
-           ("m", {"A": ["2"], "a": []})]
+           ("m", {"A": ["2"], "a": []}), ("d", {"a": ("1", "2"), "b": "3"}), ("d", {"b": {"1"}, "a": (), "A": ["2"]})]
 
 
 def md_alphabet(full: bool):
@@ -1306,10 +1334,10 @@ def md_alphabet(full: bool):
         ops += [("pop", k), ("poplist", k), ("del", k)]
         if full:
             ops.append(("popd", k, "d"))
-    for a in (MD_ARGS if full else MD_ARGS[:1]):
+    for a in (MD_ARGS if full else MD_ARGS[4:5]):
         ops.append(("update", a))
     if full:
-        ops += [("ior", MD_ARGS[1]), ("ior", MD_ARGS[0])]
+        ops += [("ior", MD_ARGS[1]), ("ior", MD_ARGS[0]), ("ior", MD_ARGS[4])]
     ops += [("popitem",), ("popitemlist",), ("clear",)]
     return ops
 
@@ -1332,7 +1360,7 @@ def md_random_op(rng):
         if t == "p":
             return ("p", tuple((k(), v()) for _ in range(rng.randint(0, 3))))
         if t == "d":
-            return ("d", {k(): (list(vl()) if rng.random() < 0.5 else v()) for _ in range(rng.randint(0, 3))})
+            return ("d", {k(): (rng.choice([list, tuple, set])(vl()) if rng.random() < 0.5 else v()) for _ in range(rng.randint(0, 3))})
         return ("m", {k(): list(vl()) for _ in range(rng.randint(0, 3))})
     n = rng.choice(["setitem", "add", "add", "setlist", "setdefault", "setlistdefault", "update", "ior", "pop", "popd", "popitem",
                     "poplist", "popitemlist", "clear", "del"])
@@ -1733,6 +1761,18 @@ def protocol_checks(chk, ds, rng, n):
                 d.add("late", "x")
                 if _md_raw(snap) != before or "late" not in cmb:
                     bad = "CombinedMultiDict.copy() is not a snapshot / the view does not follow the wrapped dict"
+        if bad is None and len(raw) >= 2 and all(raw.values()):
+            # equal immutable containers built in a different key insertion order: == and hash must agree
+            rev = dict(reversed(list(raw.items())))
+            a1 = ds.ImmutableMultiDict([(k, v) for k, vs in raw.items() for v in vs])
+            a2 = ds.ImmutableMultiDict([(k, v) for k, vs in rev.items() for v in vs])
+            firsts, rfirsts = {k: vs[0] for k, vs in raw.items()}, {k: vs[0] for k, vs in rev.items()}
+            for x, y in ((a1, a2), (ds.ImmutableDict(firsts), ds.ImmutableDict(rfirsts)),
+                         (ds.ImmutableTypeConversionDict(firsts), ds.ImmutableTypeConversionDict(rfirsts))):
+                if x != y:
+                    bad = f"{type(x).__name__}: same items in another key order compare unequal"
+                elif hash(x) != hash(y) or y not in {x}:
+                    bad = f"{type(x).__name__}: {x!r} == {y!r} but their hashes differ"
         if bad:
             chk.fail("protocol-multidict", bad, case)
         # typed get / None default
@@ -1798,6 +1838,75 @@ def protocol_checks(chk, ds, rng, n):
     chk.count("protocol(copy/pickle/deepcopy/hash; harness only)", n)
 
 
+def mapping_entry_points(chk, ds, R):
+    """every constructor-input shape (pairs, dict of scalars / lists / tuples / sets, another container) through every
+    entry point that accepts a mapping: the constructor and update / |= are operations of the sequences above; here
+    `|` on MultiDict / ImmutableMultiDict / Headers (modelled: md_or / hd_or) and the keyword forms of Headers.extend /
+    update (oracle only)."""
+    for init in MD_INITS[1:]:
+        for a in MD_ARGS + [MD_INITS[3]]:
+            for cls, kind in ((ds.MultiDict, "md"), (ds.ImmutableMultiDict, "imd")):
+                d = cls(make_arg(init, ds))
+                before = _md_raw(d)
+                case = {"kind": "or", "class": cls.__name__, "init": init, "arg": a}
+                try:
+                    rv = d | make_arg(a, ds)
+                    out = OM(rv.lists())
+                except Exception as e:  # noqa: BLE001
+                    rv, out = None, exn_name(e)
+                exp, _ = ref_md(before, ("update", a)) if a[0] != "p" else (None, None)
+                if a[0] == "p":
+                    if out != "ETypeError":
+                        chk.fail("multidict-model", f"{cls.__name__} | <list of pairs> gave {out}, expected TypeError", case)
+                elif rv is None or type(rv) is not ds.MultiDict or _md_raw(rv) != exp or list(_md_raw(rv)) != list(exp) or _md_raw(d) != before:
+                    chk.fail("multidict-model", f"{cls.__name__}({before!r}) | {a[1]!r} gave {out}, the multimap gives {exp!r} "
+                             f"(left operand afterwards {_md_raw(d)!r})", case)
+                if kind == "md":
+                    R._push(f"mdor {marg_tok(init)} {marg_tok(a)}", out, 1)
+                    chk.count("MultiDict |")
+    for init in HD_INITS[1:]:
+        for a in HD_ARGS:
+            h = ds.Headers(make_arg(init, ds))
+            before = list(h)
+            case = {"kind": "or", "class": "Headers", "init": init, "arg": a}
+            try:
+                rv = h | make_arg(a, ds)
+                out = OQ(list(rv))
+            except Exception as e:  # noqa: BLE001
+                rv, out = None, exn_name(e)
+            if a[0] in ("p", "h"):
+                if out != "ETypeError":
+                    chk.fail("headers-model", f"Headers | <not a mapping> gave {out}, expected TypeError", case)
+            else:
+                exp, er = ref_hd(before, ("update", a))
+                if isinstance(er, Raised):
+                    if out != "E" + er.cls.__name__:
+                        chk.fail("headers-model", f"Headers | {a[1]!r} gave {out}, expected {er!r}", case)
+                elif rv is None or list(rv) != exp or list(h) != before:
+                    chk.fail("headers-model", f"Headers({before!r}) | {a[1]!r} gave {out}, the pair list gives {exp!r}", case)
+            R._push(f"hdor {harg_tok(init)} {harg_tok(a)}", out, 1)
+            chk.count("Headers |")
+    # keyword forms
+    for v, flat in ((("1", "2"), ["1", "2"]), (["1", 2], ["1", "2"]), ({"3"}, ["3"]), ("x", ["x"]), ((), [])):
+        h = ds.Headers([("a", "0")])
+        h.extend(a=v)
+        if list(h) != [("a", "0")] + [("a", x) for x in flat]:
+            chk.fail("headers-model", f"Headers.extend(a={v!r}) gave {list(h)!r}", {"kind": "kwargs", "value": repr(v)})
+        h = ds.Headers([("a", "0"), ("b", "1")])
+        h.update(a=v)
+        want = ([("a", flat[0])] if flat else []) + [("b", "1")] + [("a", x) for x in flat[1:]]
+        if list(h) != want:
+            chk.fail("headers-model", f"Headers.update(a={v!r}) gave {list(h)!r}, expected {want!r}", {"kind": "kwargs", "value": repr(v)})
+        m = ds.MultiDict([("a", "0")])
+        m.update({"a": v})
+        m2 = ds.MultiDict({"a": v})
+        vals = list(v) if isinstance(v, MULTI) else [v]
+        if m.getlist("a") != ["0"] + vals or m2.getlist("a") != vals:
+            chk.fail("multidict-model", f"update / constructor with {{'a': {v!r}}} disagree with the multimap: {m.getlist('a')!r} / {m2.getlist('a')!r}",
+                     {"kind": "kwargs", "value": repr(v)})
+        chk.case(("kwargs", repr(v)), nontrivial=True)
+
+
 # ====================================================================== harness: the run
 
 def _line(kind, init_tok, toks, keys=PROBE, idxs=IDXS):
@@ -1815,6 +1924,8 @@ def load_corpus():
 
 
 def _tup(x):
+    if isinstance(x, str) and x.startswith("Lazy(") and x.endswith(")"):
+        return Lazy(ast.literal_eval(x[5:-1]))
     return tuple(_tup(y) for y in x) if isinstance(x, list) else x
 
 
@@ -1823,8 +1934,8 @@ def _arg_from_json(a):
         return None
     kind, val = a
     if kind in ("p", "h"):
-        return (kind, tuple((k, v) for k, v in val))
-    return (kind, dict(val))
+        return (kind, tuple((k, _tup(v)) for k, v in val))
+    return (kind, {k: _tup(v) for k, v in dict(val).items()})
 
 
 def _ops_from_json(kind, ops):
@@ -2016,6 +2127,7 @@ def run(chk: Check) -> None:
             R.eh(env, [])
 
     protocol_checks(chk, ds, rng, 150 if quick else 3000)
+    mapping_entry_points(chk, ds, R)
 
     # ---- model side
     exe = chk.build_modelrun(PID)
